@@ -33,12 +33,12 @@ func (r *recLimit) OnSample(start int64, rtt int64, inflight int, drop bool) {
 
 // recStrategy: recording core.Strategy double.
 type recStrategy struct {
-	limit     int
-	setCalls  int
-	busy      int
-	grant     bool
-	acquires  int
-	releases  int
+	limit    int
+	setCalls int
+	busy     int
+	grant    bool
+	acquires int
+	releases int
 }
 
 func (s *recStrategy) TryAcquire(ctx context.Context) (core.StrategyToken, bool) {
